@@ -23,9 +23,11 @@ import (
 	"runtime/debug"
 	"strings"
 	"sync"
+	"sync/atomic"
 	"testing"
 	"time"
 
+	"github.com/magisterquis/curlrevshell/internal/hsrv"
 	"github.com/magisterquis/curlrevshell/lib/sstls"
 
 	"github.com/magisterquis/curlrevshell/verifharness/ev"
@@ -213,6 +215,50 @@ func runC05(t testing.TB, c C05Case) (key, what string, classes map[string]int) 
 			}
 			sites += len(ms)
 			classes["script"]++
+		case "sibling-listener-own-curl-block":
+			// Another listener of the same process, with its own key and a
+			// callback template file that is the built-in one with that
+			// listener's pin written into its own "curl" block.  Whatever it
+			// serves, this listener's scripts keep pinning this listener's key.
+			sibTmpl := filepath.Join(dir, fmt.Sprintf("sibling-%d.tmpl", i))
+			os.WriteFile(sibTmpl, []byte(hsrv.DefaultTemplate), 0o644)
+			sib, err := Start(Cfg{Listen: "127.0.0.1:0", Tmpl: sibTmpl})
+			if err != nil {
+				return "HARNESS", where + ": sibling: " + err.Error(), classes
+			}
+			spin, err := sib.ServedPin()
+			if err != nil {
+				sib.Stop()
+				return "HARNESS", where + ": sibling handshake: " + err.Error(), classes
+			}
+			os.WriteFile(sibTmpl, []byte(strings.Replace(hsrv.DefaultTemplate, "{{.PubkeyFP}}", spin, 1)), 0o644)
+			sres, err := sib.Request([]byte("GET /c HTTP/1.1\r\nHost: sib.example:9\r\nConnection: close\r\n\r\n"), "GET", "")
+			sib.Stop()
+			if err != nil {
+				return "HARNESS", where + ": sibling: " + err.Error(), classes
+			}
+			for _, m := range anyPin.FindAllSubmatch(sres.Body, -1) {
+				if string(m[1]) != spin {
+					c05Poisoned.Store(true)
+					return "script-pin-differs", fmt.Sprintf("%s: the sibling listener's script pins sha256//%s but it serves sha256//%s", where, m[1], spin), classes
+				}
+			}
+			res, err := s.Request([]byte("GET /c HTTP/1.1\r\nHost: cb.example:9\r\nConnection: close\r\n\r\n"), "GET", "")
+			if err != nil {
+				return "HARNESS", where + ": " + err.Error(), classes
+			}
+			ms := anyPin.FindAllSubmatch(res.Body, -1)
+			if len(ms) < 1 {
+				return "script-without-pins", fmt.Sprintf("%s: script carries no pin: %q", where, clip(string(res.Body), 200)), classes
+			}
+			for _, m := range ms {
+				if string(m[1]) != pin {
+					c05Poisoned.Store(true)
+					return "script-pin-differs", fmt.Sprintf("%s: after another listener of this process (serving sha256//%s, template file with its own curl block) handed out a script, this listener's script pins sha256//%s but it serves sha256//%s", where, spin, m[1], pin), classes
+				}
+			}
+			sites += len(ms)
+			classes["script-after-sibling-listener-with-own-curl-block"]++
 		case "kill-shell":
 			ic, err := s.OpenIn("/i/k1", "h")
 			if err != nil {
@@ -397,6 +443,11 @@ func runC05(t testing.TB, c C05Case) (key, what string, classes map[string]int) 
 	return "", "", classes
 }
 
+// c05Poisoned: a case showed that one listener's template changed what
+// another listener of the process serves; nothing later in this process can
+// be judged on its own.
+var c05Poisoned atomic.Bool
+
 func genC05() *rapid.Generator[C05Case] {
 	return rapid.Custom(func(t *rapid.T) C05Case {
 		c := C05Case{
@@ -409,7 +460,7 @@ func genC05() *rapid.Generator[C05Case] {
 			c.CBAddrs = append(c.CBAddrs, rapid.SampledFrom([]string{"cb.example", "cb.example:8443", "10.9.8.7", "10.9.8.7:444", "[2001:db8::5]:4444", "2001:db8::6", "other.test:1"}).Draw(t, "cb"))
 		}
 		for i := rapid.IntRange(1, 5).Draw(t, "nsteps"); i > 0; i-- {
-			c.Steps = append(c.Steps, C05Step{Kind: rapid.SampledFrom([]string{"script", "script", "kill-shell", "restart", "custom-script", "curl", "restart-after-cache-removed", "cache-replaced-while-running", "script-burst-after-template-failure"}).Draw(t, "step")})
+			c.Steps = append(c.Steps, C05Step{Kind: rapid.SampledFrom([]string{"script", "script", "kill-shell", "restart", "custom-script", "curl", "restart-after-cache-removed", "cache-replaced-while-running", "script-burst-after-template-failure", "sibling-listener-own-curl-block"}).Draw(t, "step")})
 		}
 		return c
 	})
@@ -437,6 +488,12 @@ func TestC05(t *testing.T) {
 	ev.RapidChecks(ev.Scale(240, 8000))
 	rapid.Check(t, func(rt *rapid.T) {
 		c := genC05().Draw(rt, "case")
+		if c05Poisoned.Load() {
+			// template state shared by every listener of the process was
+			// damaged by the case already reported: later cases (and shrink
+			// candidates) would fail for that reason, not their own
+			rt.Skip("process-wide template state damaged by an earlier case")
+		}
 		k, w, cl := runC05(t, c)
 		canon, _ := json.Marshal(c)
 		names := []string{"listen-" + c.Listen, "cache-" + c.Cache}
